@@ -212,6 +212,14 @@ func run(r *lib.Run) {
 		warnLow(fmt.Sprintf("reports_%s_type_1_history", d), 2*q)
 		warnLow(fmt.Sprintf("reports_%s_type_2_state", d), 1*q)
 	}
+	{
+		var ow sync.WaitGroup
+		for i := 0; i < r.Pick(6, 30); i++ {
+			ow.Add(1)
+			go func(i int) { defer ow.Done(); reportOrderUnderSlowRefresh(r, i) }(i)
+		}
+		ow.Wait()
+	}
 	spreadMu.Lock()
 	r.Count("rounds_with_covered_candidates_beyond_the_8_closest", spreadRounds)
 	r.Count("rounds_random_part_reached_beyond_the_8_closest", spreadPicked)
